@@ -67,7 +67,14 @@ pub fn parse_tag(i: &[u8]) -> nom::IResult<&[u8], StructureTag> {
 
             let mut tv: Vec<StructureTag> = Vec::new();
             while content.input_len() > 0 {
-                let (j, sub) = parse_tag(content)?;
+                // The content octets are all here: an element running past their
+                // end is an error, more input can't complete it.
+                let (j, sub) = parse_tag(content).map_err(|e| match e {
+                    nom::Err::Incomplete(_) => {
+                        nom::Err::Error(Error::from_error_kind(content, ErrorKind::Eof))
+                    }
+                    e => e,
+                })?;
                 content = j;
                 tv.push(sub);
             }
